@@ -5,5 +5,10 @@ cd "$(dirname "$0")"
 if ! /venv/bin/python -c "import hypothesis" 2>/dev/null; then
   /venv/bin/pip install --no-index --find-links /opt/veriftools/wheels hypothesis
 fi
+# atheris (coverage-guided shards of C12/C16/C17/C20) goes beside the checks, not into /venv; without it those
+# shards fall back to plain random generation and say so in the evidence
+if ! PYTHONPATH=.deps /venv/bin/python -c "import atheris" 2>/dev/null; then
+  /venv/bin/pip install -q --no-index --find-links /opt/veriftools/wheels --target .deps atheris || echo "setup: atheris not installable, fuzz shards will fall back"
+fi
 /venv/bin/python -c "import hypothesis, mpmath, numpy, scipy, pyhf; print('setup ok: hypothesis', hypothesis.__version__, 'pyhf from', pyhf.__file__)"
 mkdir -p evidence .work
